@@ -24,8 +24,10 @@ and, without any hypothesis on the bytes (`_partial`: the sub-scanners named in 
 * `skipRawContent_positions` the content of `{% raw %}` leaves the lexer at the right position;
 * `blockComment_positions`   a `/* … */` comment in a code region (a first piece of `CodePosSpec`).
 Over the position bookkeeping *extracted from lexer.go* (`Gen/LexAdvance`, regenerated on every
-check: every path through one iteration of `scan`'s main loop and through `scanCodeBlock`, as a
-guard on the bytes and the statements that move `p`, `l.column`, `l.line`):
+check: every path through one iteration of `scan`'s main loop, through `scanCodeBlock`, `scanTag` and
+`scanAttribute` (with every path through one iteration of their loops) and through one iteration of the byte
+walks of `lexComment`, `skipRawContent` and CDATA sections, as a guard on the bytes and the statements
+that move `p`, `l.column`, `l.line`):
 * `skips_account_for_bytes`  on every path, under the path's guard, the statements move line and column
                              exactly as the specification does over the bytes the path steps over —
                              a byte stepped over without being looked at must be pinned by the guard
@@ -167,8 +169,9 @@ theorem token_lines_count_newlines (U : Unicode) (format : Nat) (nps : Bool) (sr
 /-- every extracted segment passes the checker, except the CR-after-LF step -/
 theorem segments_checked : Gen.LexAdvance.segs.all (fun s => s.check || s.isLFCR) = true := by decide +kernel
 
-/-- `skips_account_for_bytes`: for every path through one iteration of the main loop of `scan` (and
-through `scanCodeBlock`) as extracted from lexer.go, whatever the source, the offset `p` the path starts
+/-- `skips_account_for_bytes`: for every path through one iteration of the main loop of `scan`, through
+`scanCodeBlock`, `scanTag`, `scanAttribute` (and one iteration of their loops) and through one iteration of
+the byte walks of `lexComment`, `skipRawContent` and CDATA sections, as extracted from lexer.go, whatever the source, the offset `p` the path starts
 at and the value of `quote`: if the conditions the path took hold, then the bytes the path advanced
 over are in the source and its `p`/`l.column`/`l.line` statements move (line, column) exactly as
 `Spec.Position.advance` does over those bytes. In particular no path steps over a newline without
